@@ -4954,7 +4954,7 @@ func updateMeshTopology(tx WriteTxn, idx uint64, node string, svc *structs.NodeS
 
 		var mapping *upstreamDownstream
 		if existing, ok := obj.(*upstreamDownstream); ok {
-			mapping := existing.DeepCopy()
+			mapping = existing.DeepCopy()
 			mapping.Refs[uid] = struct{}{}
 			mapping.ModifyIndex = idx
 
@@ -4982,8 +4982,26 @@ func updateMeshTopology(tx WriteTxn, idx uint64, node string, svc *structs.NodeS
 
 	for u := range oldUpstreams {
 		if !inserted[u] {
-			if _, err := tx.DeleteAll(tableMeshTopology, indexID, u, downstream); err != nil {
-				return fmt.Errorf("failed to truncate %s table: %v", tableMeshTopology, err)
+			// This instance no longer has the upstream: drop only its own
+			// reference, other instances of the proxy may still need the mapping.
+			obj, err := tx.First(tableMeshTopology, indexID, u, downstream)
+			if err != nil {
+				return fmt.Errorf("%q lookup failed: %v", tableMeshTopology, err)
+			}
+			if existing, ok := obj.(*upstreamDownstream); ok {
+				uid := structs.UniqueID(node, svc.CompoundServiceID().String())
+				mapping := existing.DeepCopy()
+				delete(mapping.Refs, uid)
+				if len(mapping.Refs) == 0 {
+					if err := tx.Delete(tableMeshTopology, existing); err != nil {
+						return fmt.Errorf("failed to truncate %s table: %v", tableMeshTopology, err)
+					}
+				} else {
+					mapping.ModifyIndex = idx
+					if err := tx.Insert(tableMeshTopology, mapping); err != nil {
+						return fmt.Errorf("failed inserting %s mapping: %s", tableMeshTopology, err)
+					}
+				}
 			}
 			if err := indexUpdateMaxTxn(tx, idx, tableMeshTopology); err != nil {
 				return fmt.Errorf("failed updating %s index: %v", tableMeshTopology, err)
